@@ -12,6 +12,7 @@ theorem that mentions it stops compiling.
 usage: py2v.py <repo> <outdir>
 """
 import ast
+import copy
 import os
 import re
 import sys
@@ -369,9 +370,19 @@ class Fn:
 # ----------------------------------------------------------------------------------
 # helpers on modules
 # ----------------------------------------------------------------------------------
-def parse(repo, rel):
+def parse_raw(repo, rel):
     with open(os.path.join(repo, rel)) as f:
         return ast.parse(f.read(), rel)
+
+
+NF_MODE = False       # second pass of main(): definitions that could not be read from the source as written are retried on its normal form
+
+
+def parse(repo, rel):
+    """the module as written; in the second pass (NF_MODE) its NORMAL FORM: calls of helper functions that did not exist when the
+    translators were written (tools/known_functions.json) inlined in every function and method, see Inliner"""
+    mod = parse_raw(repo, rel)
+    return normal_form(repo, rel, mod) if NF_MODE else mod
 
 
 def find_class(mod, name):
@@ -390,6 +401,311 @@ def find_func(scope, name, decorator=None):
             if decorator is not None and decorator in decs:
                 return n
     raise Untranslatable(f"function {name} ({decorator}) not found")
+
+
+# ----------------------------------------------------------------------------------
+# normal form: calls of small helpers of the same package are inlined before a function is read
+# ----------------------------------------------------------------------------------
+PRIMITIVES = {"write_string", "write_as_c_string", "read_string"}      # helpers the layout readers understand themselves
+try:
+    with open(os.path.join(os.path.dirname(os.path.abspath(__file__)), "known_functions.json")) as _f:
+        KNOWN_FUNCTIONS = set(__import__("json").load(_f))    # every def of the laspy package at the time the readers were written
+except Exception:
+    KNOWN_FUNCTIONS = set()
+_MODCACHE = {}
+
+
+def _module_of(repo, rel):
+    key = (repo, rel)
+    if key not in _MODCACHE:
+        try:
+            _MODCACHE[key] = parse_raw(repo, rel)
+        except Exception:
+            _MODCACHE[key] = None
+    return _MODCACHE[key]
+
+
+def _imports(repo, rel, mod):
+    """local name -> (module file, name in it) for `from .x import a as b` / `from ..x.y import a` inside the laspy package"""
+    out = {}
+    pkg = os.path.dirname(rel).split("/")
+    for n in mod.body:
+        if isinstance(n, ast.ImportFrom) and n.level >= 1:
+            base = pkg[:len(pkg) - (n.level - 1)]
+            parts = base + (n.module.split(".") if n.module else [])
+            for cand in ("/".join(parts) + ".py", "/".join(parts) + "/__init__.py"):
+                if os.path.exists(os.path.join(repo, cand)):
+                    for a in n.names:
+                        out[a.asname or a.name] = (cand, a.name)
+                    break
+    return out
+
+
+def imported_int_consts(repo, rel, mod):
+    """integer constants of the module, including those imported from sibling modules"""
+    out = {}
+    for local, (cand, name) in _imports(repo, rel, mod).items():
+        m2 = _module_of(repo, cand)
+        if m2 is not None:
+            c2 = int_consts(m2)
+            if name in c2:
+                out[local] = c2[name]
+    out.update(int_consts(mod))
+    return out
+
+
+class _Subst(ast.NodeTransformer):
+    def __init__(self, mapping):
+        self.mapping = mapping
+
+    def visit_Name(self, node):
+        if node.id in self.mapping:
+            new = copy.deepcopy(self.mapping[node.id])
+            if isinstance(new, ast.Name):
+                new.ctx = node.ctx
+            return new
+        return node
+
+
+PURE_BUILTINS = {"len", "int", "float", "str", "bool", "abs", "min", "max", "bytes"}
+PURE_METHODS = {"timetuple"}
+
+
+def _simple_arg(e):
+    """expressions whose evaluation has no side effect and does not depend on when, within the helper, it happens: substituting
+    them for the parameter is the same as binding the parameter"""
+    return isinstance(e, (ast.Name, ast.Constant)) or (isinstance(e, ast.Attribute) and _simple_arg(e.value)) \
+        or (isinstance(e, ast.Subscript) and _simple_arg(e.value) and _simple_arg(e.slice)) \
+        or (isinstance(e, ast.UnaryOp) and _simple_arg(e.operand)) \
+        or (isinstance(e, ast.BinOp) and _simple_arg(e.left) and _simple_arg(e.right)) \
+        or (isinstance(e, ast.Call) and not e.keywords and all(_simple_arg(a) for a in e.args)
+            and ((isinstance(e.func, ast.Name) and e.func.id in PURE_BUILTINS)
+                 or (isinstance(e.func, ast.Attribute) and e.func.attr in PURE_METHODS and not e.args and _simple_arg(e.func.value))))
+
+
+def _body_without_doc(fn):
+    b = list(fn.body)
+    if b and isinstance(b[0], ast.Expr) and isinstance(b[0].value, ast.Constant) and isinstance(b[0].value.value, str):
+        b = b[1:]
+    return [s for s in b if not (isinstance(s, ast.Expr) and isinstance(s.value, ast.Call)
+                                 and ast.unparse(s.value.func).startswith("logger."))]
+
+
+def _has_inner_return(stmts):
+    for s in stmts:
+        for n in ast.walk(s):
+            if isinstance(n, (ast.Return, ast.Yield, ast.YieldFrom)):
+                return True
+    return False
+
+
+class Inliner:
+    """inline(fn) -> a copy of the FunctionDef in which calls of helper functions that live in the same class, the same module or
+    a sibling module of the package are replaced by their bodies (parameters replaced by the argument expressions). Only shapes
+    whose replacement is evidently equivalent are touched: arguments are names / attributes / constants (evaluated without side
+    effect, so substitution = binding), the helper has no nested return, no yield, no decorators other than static/classmethod;
+    a helper that is a single `return e` is inlined inside expressions, a helper of statements (+ optional final `return e`) is
+    inlined at statement level (`helper(..)`, `x = helper(..)`, `return helper(..)`). Anything else is left as written - the reader
+    of the function then fails closed as before."""
+
+    def __init__(self, repo, rel, mod, cls=None, keep=(), depth=4):
+        self.repo, self.rel, self.mod, self.cls = repo, rel, mod, cls
+        self.keep = set(keep) | PRIMITIVES
+        self.depth = depth
+        self.imports = _imports(repo, rel, mod)
+        self.counter = 0
+        self.caller_names = set()
+
+    def resolve(self, call):
+        f = call.func
+        drop_first = False
+        target = None
+        ctx = (self.rel, self.mod, self.cls)
+        if isinstance(f, ast.Attribute) and isinstance(f.value, ast.Name) and self.cls is not None \
+                and f.value.id in ("self", "cls", self.cls.name):
+            for n in self.cls.body:
+                if isinstance(n, ast.FunctionDef) and n.name == f.attr:
+                    decs = [ast.unparse(d) for d in n.decorator_list]
+                    if any(d not in ("staticmethod", "classmethod") for d in decs):
+                        return None
+                    target, drop_first = n, "staticmethod" not in decs
+                    break
+        elif isinstance(f, ast.Name):
+            if f.id in self.keep:
+                return None
+            for n in self.mod.body:
+                if isinstance(n, ast.FunctionDef) and n.name == f.id and not n.decorator_list:
+                    target = n
+                    ctx = (self.rel, self.mod, None)
+                    break
+            if target is None and f.id in self.imports:
+                cand, name = self.imports[f.id]
+                m2 = _module_of(self.repo, cand)
+                if m2 is not None and name not in self.keep:
+                    for n in m2.body:
+                        if isinstance(n, ast.FunctionDef) and n.name == name and not n.decorator_list:
+                            target = n
+                            ctx = (cand, m2, None)
+                            break
+        if target is None or (isinstance(f, ast.Attribute) and f.attr in self.keep):
+            return None
+        a = target.args
+        if a.vararg or a.kwarg or a.posonlyargs:
+            return None
+        params = [p.arg for p in a.args]
+        defaults = dict(zip(params[len(params) - len(a.defaults):], a.defaults))
+        for p, d in zip(a.kwonlyargs, a.kw_defaults):
+            params.append(p.arg)
+            if d is not None:
+                defaults[p.arg] = d
+        if drop_first:
+            if not params:
+                return None
+            first = params.pop(0)
+            bound = {first: f.value}
+        else:
+            bound = {}
+        pos = [p.arg for p in a.args][1 if drop_first else 0:]
+        if len(call.args) > len(pos) or any(isinstance(x, ast.Starred) for x in call.args):
+            return None
+        for p, e in zip(pos, call.args):
+            bound[p] = e
+        for k in call.keywords:
+            if k.arg is None or k.arg not in params or k.arg in bound:
+                return None
+            bound[k.arg] = k.value
+        for p in params:
+            if p not in bound:
+                if p not in defaults:
+                    return None
+                bound[p] = defaults[p]
+        if not all(_simple_arg(e) for e in bound.values()):
+            return None
+        body = _body_without_doc(target)
+        assigned = {n.id for s in body for n in ast.walk(s) if isinstance(n, ast.Name) and isinstance(n.ctx, ast.Store)}
+        if assigned & set(bound):          # a parameter re-bound in the helper: substitution would not be binding
+            return None
+        return target, body, bound, ctx
+
+    def expr_form(self, call):
+        r = self.resolve(call)
+        if r is None:
+            return None
+        target, body, bound, ctx = r
+        if len(body) == 1 and isinstance(body[0], ast.Return) and body[0].value is not None:
+            e = _Subst(bound).visit(copy.deepcopy(body[0].value))
+            return Inliner(self.repo, ctx[0], ctx[1], ctx[2], self.keep, self.depth - 1).in_expr(e) if self.depth > 1 else e
+        return None
+
+    def in_expr(self, e):
+        me = self
+
+        class T(ast.NodeTransformer):
+            def visit_Call(self, node):
+                node = self.generic_visit(node)
+                if me.depth <= 0:
+                    return node
+                r = me.expr_form(node)
+                return r if r is not None else node
+        return T().visit(e)
+
+    def stmt_form(self, call):
+        """(statements, result expression or None) for a helper of several statements"""
+        r = self.resolve(call)
+        if r is None:
+            return None
+        target, body, bound, ctx = r
+        res = None
+        if body and isinstance(body[-1], ast.Return):
+            res, body = body[-1].value, body[:-1]
+        if not body or _has_inner_return(body):
+            return None
+        locs = {n.id for s in body for n in ast.walk(s) if isinstance(n, ast.Name) and isinstance(n.ctx, ast.Store)}
+        self.counter += 1
+        sub = dict(bound)
+        for l in sorted(locs & self.caller_names):      # a local of the helper must not capture a name of the caller
+            sub[l] = ast.Name(id=f"{l}__h{self.counter}", ctx=ast.Load())
+        stmts = [_Subst(sub).visit(copy.deepcopy(s)) for s in body]
+        res = _Subst(sub).visit(copy.deepcopy(res)) if res is not None else None
+        inner = Inliner(self.repo, ctx[0], ctx[1], ctx[2], self.keep, self.depth - 1)
+        inner.caller_names = self.caller_names | {n.id for x in stmts for n in ast.walk(x) if isinstance(n, ast.Name)}
+        inner.counter = self.counter * 10
+        if self.depth > 1:
+            stmts = inner.block(stmts)
+            res = inner.in_expr(res) if res is not None else None
+        return stmts, res
+
+    def block(self, stmts):
+        out = []
+        for s in stmts:
+            s = copy.deepcopy(s)
+            call = None
+            if isinstance(s, ast.Expr) and isinstance(s.value, ast.Call):
+                call = s.value
+            elif isinstance(s, (ast.Assign, ast.Return, ast.AugAssign, ast.AnnAssign)) and isinstance(s.value, ast.Call):
+                call = s.value
+            if call is not None and self.depth > 0:
+                r = self.stmt_form(call)
+                if r is not None:
+                    body, res = r
+                    out.extend(body)
+                    if isinstance(s, (ast.Assign, ast.AugAssign, ast.AnnAssign)) and res is not None:
+                        s.value = res
+                        out.append(s)
+                    elif isinstance(s, ast.Return):
+                        s.value = res
+                        out.append(s)
+                    elif isinstance(s, (ast.Assign, ast.AugAssign, ast.AnnAssign)):
+                        return_none = copy.deepcopy(s)     # helper returns nothing but its value is used: keep the call (fails closed later)
+                        out = out[:len(out) - len(body)]
+                        out.append(return_none)
+                    continue
+            for fld in ("body", "orelse", "finalbody"):
+                if hasattr(s, fld) and isinstance(getattr(s, fld), list) and not isinstance(s, (ast.FunctionDef, ast.ClassDef)):
+                    setattr(s, fld, self.block(getattr(s, fld)))
+            if isinstance(s, ast.Try):
+                for h in s.handlers:
+                    h.body = self.block(h.body)
+            if isinstance(s, (ast.With,)):
+                pass
+            for fld in ("value", "test", "iter"):
+                if hasattr(s, fld) and isinstance(getattr(s, fld), ast.AST):
+                    setattr(s, fld, self.in_expr(getattr(s, fld)))
+            out.append(s)
+        return out
+
+    def inline(self, fn):
+        new = copy.deepcopy(fn)
+        self.caller_names = {n.id for n in ast.walk(fn) if isinstance(n, ast.Name)} | {a.arg for a in fn.args.args}
+        new.body = self.block(_body_without_doc(fn))
+        return ast.fix_missing_locations(new)
+
+
+def normal_form(repo, rel, mod):
+    """every function / method of the module with its helper calls inlined (the helpers themselves stay defined)"""
+    raw = copy.deepcopy(mod)
+    out = copy.deepcopy(mod)
+
+    def scope(nodes_out, nodes_raw, cls_raw):
+        for i, n in enumerate(nodes_out):
+            if isinstance(n, ast.FunctionDef):
+                nodes_out[i] = inlined(repo, rel, raw, cls_raw, nodes_raw[i], keep=KNOWN_FUNCTIONS)
+            elif isinstance(n, ast.ClassDef):
+                scope(n.body, nodes_raw[i].body, nodes_raw[i])
+    scope(out.body, raw.body, None)
+    return ast.fix_missing_locations(out)
+
+
+def inlined_new_helpers(repo, rel, mod, cls, fn):
+    return inlined(repo, rel, mod, cls, fn, keep=KNOWN_FUNCTIONS)
+
+
+def inlined(repo, rel, mod, cls, fn, keep=()):
+    """normal form of a function for the structural readers; on any internal error the function is returned as written"""
+    try:
+        return Inliner(repo, rel, mod, cls, keep).inline(fn)
+    except Exception:
+        return fn
 
 
 def int_consts(scope):
@@ -421,14 +737,19 @@ class Out:
         self.missing = []
 
     def add(self, name, thunk):
+        start = len(self.text)
+        ok = True
         try:
             self.text += thunk() + "\n"
         except Untranslatable as ex:
+            ok = False
             self.missing.append((name, str(ex)))
             self.text += f"(* MISSING {name}: untranslatable: {ex} *)\n\n"
         except Exception as ex:  # fail closed on anything
+            ok = False
             self.missing.append((name, repr(ex)))
             self.text += f"(* MISSING {name}: translator error: {ex!r} *)\n\n"
+        self.parts = getattr(self, "parts", []) + [(name, start, len(self.text), ok)]
 
 
 # ----------------------------------------------------------------------------------
@@ -562,6 +883,22 @@ def const_int(node, consts, flags=None):
         a, b = const_int(node.left, consts, flags), const_int(node.right, consts, flags)
         return a + b if isinstance(node.op, ast.Add) else a - b if isinstance(node.op, ast.Sub) else a * b
     raise Untranslatable(f"width {ast.unparse(node)}")
+
+
+def const_bytes(node, consts, flags=None):
+    """compile-time bytes: a literal, literal * n, n * literal, bytes(n); None if it is not one"""
+    if isinstance(node, ast.Constant) and isinstance(node.value, bytes):
+        return node.value
+    try:
+        if isinstance(node, ast.BinOp) and isinstance(node.op, ast.Mult):
+            for x, y in ((node.left, node.right), (node.right, node.left)):
+                if isinstance(x, ast.Constant) and isinstance(x.value, bytes):
+                    return x.value * const_int(y, consts, flags)
+        if isinstance(node, ast.Call) and isinstance(node.func, ast.Name) and node.func.id == "bytes" and len(node.args) == 1 and not node.keywords:
+            return bytes(const_int(node.args[0], consts, flags))
+    except Untranslatable:
+        return None
+    return None
 
 
 def local_consts(stmt, consts, flags):
@@ -816,7 +1153,7 @@ def gen_header_layout(repo):
     o = Out("laspy/header.py LasHeader.write_to / read_from, laspy/vlrs/vlrlist.py")
     o.text = o.text.replace("From LasV Require Import Lib.Base.", "From LasV Require Import Lib.Base Lib.Layout.")
     mod = parse(repo, "laspy/header.py")
-    consts = int_consts(mod)
+    consts = imported_int_consts(repo, "laspy/header.py", mod)
     cls = find_class(mod, "LasHeader")
     gecls = find_class(mod, "GlobalEncoding")
     for minor in (1, 2, 3, 4):
@@ -841,7 +1178,7 @@ def gen_header_layout(repo):
 
     # VLR record headers
     vmod = parse(repo, "laspy/vlrs/vlrlist.py")
-    vconsts = int_consts(vmod)
+    vconsts = imported_int_consts(repo, "laspy/vlrs/vlrlist.py", vmod)
     vcls = find_class(vmod, "VLRList")
 
     def vlr_w(ext):
@@ -871,10 +1208,11 @@ def gen_header_layout(repo):
                     f = ast.unparse(c.func)
                     if f == "stream.write":
                         a = c.args[0]
-                        if isinstance(a, ast.Constant) and isinstance(a.value, bytes):
-                            if any(a.value):
+                        cb = const_bytes(a, vc, flags)
+                        if cb is not None:
+                            if any(cb):
                                 raise Untranslatable("non-zero reserved")
-                            fields.append(("KConst", len(a.value), "reserved"))
+                            fields.append(("KConst", len(cb), "reserved"))
                         elif isinstance(a, ast.Call) and isinstance(a.func, ast.Attribute) and a.func.attr == "to_bytes":
                             if not byteorder_ok(a, 1, {}) or not unsigned_kw(a):
                                 raise Untranslatable("VLR to_bytes order")
@@ -1255,6 +1593,30 @@ def load_plugins():
             TARGETS[name] = (lambda repo, ex=ex: (_ for _ in ()).throw(ex))
 
 
+def retry_on_normal_form(gen, repo, o1):
+    """Definitions the readers could not extract from the source as written are retried on its normal form (helpers introduced
+    since the readers were written inlined). A definition read from the source as written is never replaced."""
+    global NF_MODE
+    if os.environ.get("VERIF_PY2V_INLINE", "1") == "0":
+        return o1.text, o1.missing
+    NF_MODE = True
+    try:
+        o2 = gen(repo)
+    except Exception:
+        return o1.text, o1.missing
+    finally:
+        NF_MODE = False
+    p1, p2 = getattr(o1, "parts", []), getattr(o2, "parts", [])
+    if [p[0] for p in p1] != [p[0] for p in p2]:
+        return o1.text, o1.missing
+    text, missing = o1.text, list(o1.missing)
+    for (name, a, b, ok1), (_, c, d, ok2) in reversed(list(zip(p1, p2))):
+        if not ok1 and ok2:
+            text = text[:a] + f"(* {name}: read from the normal form of the source (new helpers inlined) *)\n" + o2.text[c:d] + text[b:]
+            missing = [m for m in missing if m[0] != name]
+    return text, missing
+
+
 def main():
     repo, outdir = sys.argv[1], sys.argv[2]
     load_plugins()
@@ -1264,6 +1626,8 @@ def main():
         try:
             o = gen(repo)
             text, missing = o.text, o.missing
+            if missing:
+                text, missing = retry_on_normal_form(gen, repo, o)
         except Exception as ex:
             text = f"(* GENERATION FAILED: {ex!r} *)\n"
             missing = [("*", repr(ex))]
